@@ -178,7 +178,7 @@ type CircOpts struct {
 }
 
 var opProfiles = [][]int{
-	{ref.XOR, ref.XNOR, ref.AND, ref.OR, ref.INV},           // uniform
+	{ref.XOR, ref.XNOR, ref.AND, ref.OR, ref.INV},            // uniform
 	{ref.OR, ref.OR, ref.INV, ref.INV, ref.AND, ref.XOR},     // OR/INV heavy
 	{ref.AND, ref.AND, ref.AND, ref.XOR},                     // AND heavy
 	{ref.XOR, ref.XNOR, ref.XNOR, ref.INV},                   // free + INV
